@@ -486,6 +486,7 @@ func runC03(c *eng.Ctx) {
 	c.Rule("RESET", mfT+".reset{per-metric state of the block writer}", func() { flusherMetricReset(c) })
 
 	c.Rule("PROV", mgT+".Merge{field readers belong to one metric}", func() { mergeReadersPerMetric(c) })
+	c.Rule("PASS", "tsdb/tblstore/metricsdata.seriesMerger.merge{one FlushField per target field}", func() { flushFieldPerTargetField(c) })
 
 	// ---- block writer anchors -----------------------------------------------------------------------------------------------------------
 	c.Rule("ANCHOR", mfT+".FlushSeries{startAt}", func() { flusherAnchors(c) })
@@ -1118,4 +1119,22 @@ func mergeReadersPerMetric(c *eng.Ctx) {
 	}
 	// and a reader's field table is only set when it is created
 	owner(c, "store to fieldReader.fieldIndexes", eng.StoreField("tsdb/tblstore/metricsdata.fieldReader.fieldIndexes"), []string{"tsdb/tblstore/metricsdata.newFieldReader"}, 1)
+}
+
+// flushFieldPerTargetField (shared by C03 and C11): the block writer buffers field data by CALL ORDER and writes len(fieldMetas) entries
+// per series: FlushField must be called once for every target field, also when no input block holds data for it (an empty
+// entry). A skipped call shifts every later field of the series one position down.
+func flushFieldPerTargetField(c *eng.Ctx) {
+	_ = c.P
+	f := c.Fn("tsdb/tblstore/metricsdata.seriesMerger.merge")
+	fl := c.Some(f, invokeOn("flusher", "FlushField"), "flusher.FlushField(data)")
+	for i, s := range fl {
+		top := eng.TopOf(f, s)
+		if top == nil {
+			c.Check(false, fmt.Sprintf("per-field[%d]", i), s.Instr, f, "FlushField is called from the loop over the target fields", "reached through several call sites")
+			continue
+		}
+		everyIterationPasses(c, f, eng.Site{Fn: f, Instr: top}, fmt.Sprintf("per-field[%d]", i),
+			"every iteration over the target fields reaches FlushField (an empty entry for a field without data): no `continue` passes it by")
+	}
 }
